@@ -1,5 +1,6 @@
 """C11 — chain replay protection is never dropped silently."""
 from vlib.core import Case, hx
+from vlib import core
 from vlib import cli, bip39, txgen
 
 ID = "C11"
@@ -7,7 +8,7 @@ NEEDS_CLI = True
 NEEDS_PLAIN_CLI = True
 THOROUGH_ROUNDS = 3
 RULE = ("real binary `sign transaction` x {--allow-missing-relay-protection, not} x {--signature-only, full} x kinds x chain ids {absent, null, 0, 1, 2^64-1, "
-        "2^255-20, 2^255-19 (largest with 35+2c+1 < 2^256), 2^255-18, 2^255, 2^256-1}, plus library op sig.v <parity> <chain> for every bit boundary 2^k-1, 2^k, 2^k+1 (k = 0..255) and signed legacy transactions at 20 (thorough: all) of them; "
+        "2^255-20, 2^255-19 (largest with 35+2c+1 < 2^256), 2^255-18, 2^255, 2^256-1}, legacy documents without chain id x recipient {address, absent, null} x calldata x both flags (the guard depends on the chain id only), plus library op sig.v <parity> <chain> for every bit boundary 2^k-1, 2^k, 2^k+1 (k = 0..255) and signed legacy transactions at 20 (thorough: all) of them; "
         "non-trivial = distinct (kind, chain id, flags); judge decodes the output strictly, checks v = 35+2c+parity as an integer (27/28 without chain id, "
         "yParity for typed), that the signature verifies and recovers to the signer over keccak256 of the EIP-155/2718 payload containing c, and the guard")
 EXHAUSTIVE_SWEEPS = {"quick": ["10 chain-id classes x 3 kinds x 2 flags x 2 output modes", "sig.v at 2^k-1, 2^k, 2^k+1 for k = 0..255 x both parities"], "thorough": ["10 chain-id classes x 3 kinds x 2 flags x 2 output modes", "sig.v at 2^k-1, 2^k, 2^k+1 for k = 0..255 x both parities"]}
@@ -35,7 +36,23 @@ def gen(rng, tier):
                             j = json.dumps(obj)
                         cases.append(Case("cli.sign_tx %s - default %s %d %d" % (mn, hx(j), so, allow), runner="cli",
                                           tags=("kind:" + kind, "chain:" + (str(chain) if isinstance(chain, str) or chain < 100 else "2^%d%+d" % (round(__import__('math').log2(chain + 1)), chain - 2 ** round(__import__('math').log2(chain + 1)))),
-                                                "allow:%d" % allow, "sigonly:%d" % so), meta={"via": {}, "via_file": rng.random() < 0.5}))
+                                                "allow:%d" % allow, "sigonly:%d" % so), meta={"via": {}, "via_file": core.input_route(rng)}))
+    # the guard looks at the chain id only: recipient present / absent / null, calldata empty or not, value zero or not
+    import json as _json
+    for to in ("addr", "absent", "null"):
+        for data_len in (0, 36):
+            for chain in ("absent", "null"):
+                for allow in (0, 1):
+                    for so in (0, 1):
+                        j, exp = txgen.rand_tx(rng, kind="legacy", chain=0, spellings=["dec-str", "hex-str", "int"], data_len=data_len, to=to)
+                        obj = _json.loads(j)
+                        del obj["chainId"]
+                        if chain == "null":
+                            obj["chainId"] = None
+                        if rng.random() < 0.3:
+                            obj["value"] = 0
+                        cases.append(Case("cli.sign_tx %s - default %s %d %d" % (mn, hx(_json.dumps(obj)), so, allow), runner="cli",
+                                          tags=("guard-fields", "to:" + to, "allow:%d" % allow, "sigonly:%d" % so), meta={"via": {}, "via_file": core.input_route(rng)}))
     # many parities: random keys through random mnemonics, legacy with chain id
     for _ in range(120 if tier == "thorough" else 24):
         mn = hx(" ".join(bip39.rand_phrase(rng, 12)))
